@@ -311,9 +311,21 @@ func (x *vc) eval(env *cenv, e *cexpr) Val {
 			sub.bound[k] = v
 		}
 		sub.bound[e.name] = Val{T: bv, Typ: mt.Key()}
+		strKeyed := x.srt.sortOf(mt.Key()) == sStr
+		if strKeyed {
+			// string-keyed maps are indexed by content identifiers (strkey): quantify over the identifiers; the key as a
+			// string is keystr(id), with strkey(keystr(id)) = id
+			sub.bound[e.name] = Val{T: app("keystr", bv), Typ: mt.Key()}
+		}
 		body := x.evalBool(&sub, e.args[1])
-		in := and(not(eq(m.T, "0")), app("select", app("select", env.st.heap[d], m.T), bv))
-		ks := x.srt.sortOf(mt.Key())
+		// keys(old(m)): the key set m had on entry
+		domSt := env.st
+		if e.args[0].op == "call" && e.args[0].name == "old" && env.old != nil {
+			domSt = env.old
+			x.mapArrs(domSt, mt)
+		}
+		in := and(not(eq(m.T, "0")), app("select", app("select", domSt.heap[d], m.T), x.mapKey(mt, sub.bound[e.name].T)))
+		ks := x.mapKeySort(mt)
 		if e.op == "forallkeys" {
 			return Val{T: fmt.Sprintf("(forall ((%s %s)) %s)", bv, ks, implies(in, body)), Typ: boolT}
 		}
@@ -613,7 +625,7 @@ func (x *vc) idxVal(env *cenv, base, idx Val, e *cexpr) Val {
 		return Val{T: app("select", base.T, idx.T), Typ: bt.Elem()}
 	case *types.Map:
 		_, va, _ := x.mapArrs(env.st, bt)
-		return Val{T: app("select", app("select", env.st.heap[va], base.T), idx.T), Typ: bt.Elem()}
+		return Val{T: app("select", app("select", env.st.heap[va], base.T), x.mapKey(bt, idx.T)), Typ: bt.Elem()}
 	}
 	x.cfail("cannot index %s", e)
 	return Val{}
@@ -772,12 +784,12 @@ func (x *vc) evalCall(env *cenv, e *cexpr) Val {
 		}
 		x.needLocalobj()
 		return Val{T: app("localobj", ref), Typ: boolT}
-	case "kind", "valid", "rvlen", "elemof", "isnil", "canif", "canaddr", "canset", "fval", "sval", "bval", "res", "rvtype":
+	case "kind", "valid", "rvlen", "elemof", "isnil", "canif", "canaddr", "canset", "fval", "sval", "bval", "res", "rvtype", "rvnumfield":
 		// observers of the reflect.Value model
 		v := x.eval(env, e.args[0])
 		m := map[string][2]string{"kind": {"rv_kind", "int"}, "valid": {"rv_valid", "bool"}, "rvlen": {"rv_len", "int"}, "elemof": {"rv_elem", "rv"}, "isnil": {"rv_isnil", "bool"},
 			"canif": {"rv_canif", "bool"}, "canaddr": {"rv_canaddr", "bool"}, "canset": {"rv_canset", "bool"}, "fval": {"rv_float", "f64"}, "sval": {"rv_str", "str"}, "bval": {"rv_bool", "bool"},
-			"res": {"rv_resolve", "rv"}, "rvtype": {"rv_type", "int"}}[e.name]
+			"res": {"rv_resolve", "rv"}, "rvtype": {"rv_type", "int"}, "rvnumfield": {"rv_numfield", "int"}}[e.name]
 		var t types.Type
 		switch m[1] {
 		case "int":
@@ -822,6 +834,14 @@ func (x *vc) evalCall(env *cenv, e *cexpr) Val {
 		v := x.eval(env, e.args[0])
 		i := x.eval(env, e.args[1])
 		return Val{T: app("rv_index", v.T, i.T), Typ: v.Typ}
+	case "mapat": // mapat(v, k): v.MapIndex(k) of a map-kinded reflect.Value
+		v := x.eval(env, e.args[0])
+		k := x.eval(env, e.args[1])
+		return Val{T: app("rv_mapindex", v.T, k.T), Typ: v.Typ}
+	case "fieldat": // fieldat(v, i): v.Field(i) of a struct-kinded reflect.Value
+		v := x.eval(env, e.args[0])
+		i := x.eval(env, e.args[1])
+		return Val{T: app("rv_field", v.T, i.T), Typ: v.Typ}
 	case "ifaceof": // ifaceof(v): v.Interface() as a term (the interface value a reflect.Value was made from / would yield)
 		v := x.eval(env, e.args[0])
 		return Val{T: app("rv_iface", v.T), Typ: types.NewInterfaceType(nil, nil)}
@@ -888,7 +908,22 @@ func (x *vc) evalCall(env *cenv, e *cexpr) Val {
 			x.cfail("has(m, k): m must be a map")
 		}
 		d, _, _ := x.mapArrs(env.st, mt)
-		return Val{T: and(not(eq(m.T, "0")), app("select", app("select", env.st.heap[d], m.T), k.T)), Typ: boolT}
+		return Val{T: and(not(eq(m.T, "0")), app("select", app("select", env.st.heap[d], m.T), x.mapKey(mt, k.T))), Typ: boolT}
+	case "visited": // visited(k): the map iteration of this loop has produced key k already (loop invariants of range-over-map loops)
+		if env.hdr == nil || env.fr == nil {
+			x.cfail("visited(k): only in invariants of a loop ranging over a map")
+		}
+		k := x.eval(env, e.args[0])
+		for _, instr := range env.hdr.Instrs {
+			if nx, ok := instr.(*ssa.Next); ok && !nx.IsString {
+				if it, ok := env.fr.vals[nx.Iter]; ok && it.Iter != nil && it.Iter.isMap && it.Iter.cell != "" {
+					mt := it.Iter.m.Typ.Underlying().(*types.Map)
+					gv := x.visitedArr(env.st, mt)
+					return Val{T: app("select", app("select", env.st.heap[gv], it.Iter.cell), x.mapKey(mt, k.T)), Typ: boolT}
+				}
+			}
+		}
+		x.cfail("visited(k): this loop does not range over a map")
 	case "off": // off(s): position of s[0] in its backing array
 		v := x.eval(env, e.args[0])
 		if x.srt.sortOf(v.Typ) != sSlice {
